@@ -67,6 +67,10 @@ func (v *Verifier) evalCall(fr *Frame, st *State, x *ast.CallExpr) Val {
 			return Scalar{c.And(c.Eq(a.Ref, b.Ref), c.Eq(a.Off, b.Off), c.Eq(a.Len, b.Len)), types.Typ[types.Bool]}
 		case "fresh": // fresh(s): the backing array of s was allocated during this call
 			a := v.evalSpec(fr, st, x.Args[0]).(SliceVal)
+			if v.assumingEnsures > 0 && !a.Ref.IsConst() && !a.Ref.open {
+				// a callee-allocated array: pin it to a new concrete reference on the caller's side
+				return Scalar{c.Eq(a.Ref, v.freshRef(st)), types.Typ[types.Bool]}
+			}
 			return Scalar{c.ILt(c.Inti(0), a.Ref), types.Typ[types.Bool]}
 		case "disjoint": // disjoint(s, t): the two slices share no element
 			a := v.evalSpec(fr, st, x.Args[0]).(SliceVal)
@@ -235,8 +239,16 @@ func (v *Verifier) constInt(fr *Frame, st *State, e ast.Expr) int {
 func (v *Verifier) evalSpec(fr *Frame, st *State, e ast.Expr) Val {
 	save := fr.inSpec
 	fr.inSpec = true
-	defer func() { fr.inSpec = save }()
-	return v.eval(fr, st, e)
+	top := !save
+	if top {
+		v.curClause = exprString(e)
+	}
+	r := v.eval(fr, st, e)
+	fr.inSpec = save
+	if top {
+		v.curClause = ""
+	}
+	return r
 }
 
 func (v *Verifier) evalQuant(fr *Frame, st *State, x *ast.CallExpr, forall bool) Val {
@@ -313,6 +325,13 @@ func (v *Verifier) evalQuant(fr *Frame, st *State, x *ast.CallExpr, forall bool)
 }
 
 func (v *Verifier) ghostApp(fr *Frame, st *State, f GhostFn, x *ast.CallExpr) Val {
+	if strings.HasSuffix(f.Name, ".ufKS") {
+		// keystream byte of a cipher.Stream: the symbol of the XORKeyStream model
+		c := v.eng.C
+		sv := v.eval(fr, st, x.Args[0]).(OpaqueVal)
+		k := v.toIdx(v.coerce(v.eval(fr, st, x.Args[1]), types.Typ[types.Int]), x.Pos())
+		return Scalar{c.App("ghost$ks", BVSort(8), sv.ID, k), types.Typ[types.Uint8]}
+	}
 	if strings.HasSuffix(f.Name, ".ufAESCipher") {
 		// the block cipher of a key: the same symbol as the model of aes.NewCipher
 		c := v.eng.C
@@ -636,6 +655,11 @@ func funcFullName(fn *types.Func) string { return fn.FullName() }
 
 func (v *Verifier) doCall(fr *Frame, st *State, fn *types.Func, recv Val, args []Val, x *ast.CallExpr) Val {
 	full := funcFullName(fn)
+	if ov, ok := recv.(OpaqueVal); ok && !fr.inSpec {
+		if sig := fn.Type().(*types.Signature); sig.Recv() != nil && isIfaceType(sig.Recv().Type()) {
+			v.oblige(fr, st, "nil", x.Pos(), v.eng.C.Not(ov.Nil), "method call on a nil interface value")
+		}
+	}
 	if r, ok := v.intrinsic(fr, st, full, fn, recv, args, x); ok {
 		return r
 	}
@@ -721,6 +745,11 @@ func (v *Verifier) newCallFrame(fr *Frame, st *State, fn *types.Func, fi *FuncIn
 	}
 	if sig.Recv() != nil {
 		bind(sig.Recv(), recv)
+		if sig.Recv().Name() == "" || sig.Recv().Name() == "_" {
+			cell := v.eng.newCell("self", v.eng.shapeOf(sig.Recv().Type()))
+			st.vals[cell] = recv
+			cf.byName["self"] = cell
+		}
 	}
 	np := sig.Params().Len()
 	for i := 0; i < np; i++ {
@@ -851,6 +880,29 @@ func (v *Verifier) deadResult(sig *types.Signature) Val {
 func (v *Verifier) callByContract(fr *Frame, st *State, fn *types.Func, fi *FuncInfo, con *Contract, recv Val, args []Val, x *ast.CallExpr) Val {
 	c := v.eng.C
 	full := funcFullName(fn)
+	if fr.inSpec && !con.Pure {
+		// results of a non-pure contract are fresh constants: not meaningful under a quantifier
+		chk := func(val Val) {
+			defer func() { recover() }()
+			for _, t := range v.eng.leaves(val) {
+				if t.open {
+					panic(unsupportedf(x.Pos(), "call of %s by contract with quantified arguments inside a contract expression (make it pure or use a spec function)", fn.Name()))
+				}
+			}
+		}
+		for _, a := range args {
+			func() {
+				defer func() {
+					if r := recover(); r != nil {
+						if u, ok := r.(unsupported); ok {
+							panic(u)
+						}
+					}
+				}()
+				chk(a)
+			}()
+		}
+	}
 	if con.Trusted {
 		v.trustedUsed[full] = true
 	}
@@ -910,10 +962,12 @@ func (v *Verifier) callByContract(fr *Frame, st *State, fn *types.Func, fi *Func
 	if cf.resultV == nil {
 		cf.resultV = []Val{}
 	}
+	v.assumingEnsures++
 	for _, cl := range con.Ensures {
 		t := v.asBool(v.evalSpec(cf, st, cl.Expr), x.Pos())
 		st.assume(t)
 	}
+	v.assumingEnsures--
 	_ = c
 	if len(res) == 1 {
 		return res[0]
@@ -976,6 +1030,9 @@ func (v *Verifier) resolveModTarget(cf *Frame, st *State, m ast.Expr, pos token.
 				keys = []string{gChanLen, gChanData, gChanMsgs}
 			}
 			if keys != nil {
+				if aid, ok := ce.Args[0].(*ast.Ident); ok && aid.Name == "$any" {
+					return []ModTarget{{Ghost: keys, Ref: nil}}
+				}
 				val := v.eval(cf, st, ce.Args[0])
 				var ref *Term
 				switch o := val.(type) {
@@ -1050,6 +1107,10 @@ func (v *Verifier) havocModifies(cf *Frame, st *State, pre *State, con *Contract
 		case t.Ghost != nil:
 			for _, k := range t.Ghost {
 				h := v.ghostHeap(st, k)
+				if t.Ref == nil {
+					v.setGhostHeap(st, k, v.eng.C.Fresh("hvghostall", h.Sort))
+					continue
+				}
 				v.setGhostHeap(st, k, v.eng.C.Store(h, t.Ref, v.eng.C.Fresh("hvghost", h.Sort.Elem)))
 			}
 		case t.Loc != nil:
